@@ -44,20 +44,22 @@ type ChainCfg struct {
 	// Warm: a request is served to each service when only the first WarmCF container filters and
 	// WarmSF / WarmSF2 service filters are registered; the rest is registered afterwards, before the
 	// simulated clients start. Nothing computed for the first request may outlive it.
-	Warm    bool    `json:"warm_up_before_all_filters_are_registered"`
-	WarmCF  int     `json:"warm_container_filters,omitempty"`
-	WarmSF  int     `json:"warm_service_filters,omitempty"`
-	WarmSF2 int     `json:"warm_service2_filters,omitempty"`
-	Pretty  bool    `json:"pretty"`
-	CF      []FSpec `json:"container_filters"`
-	SF      []FSpec `json:"service_filters"`
-	RF      []FSpec `json:"route_filters"`
-	SF2     []FSpec `json:"service2_filters,omitempty"`
-	RF2     []FSpec `json:"route2_filters,omitempty"`
+	Warm    bool `json:"warm_up_before_all_filters_are_registered"`
+	WarmCF  int  `json:"warm_container_filters,omitempty"`
+	WarmSF  int  `json:"warm_service_filters,omitempty"`
+	WarmSF2 int  `json:"warm_service2_filters,omitempty"`
+	// WarmFlip: during the warm-up the encoding and recovery switches have the opposite value
+	WarmFlip bool    `json:"switches_opposite_during_warm_up,omitempty"`
+	Pretty   bool    `json:"pretty"`
+	CF       []FSpec `json:"container_filters"`
+	SF       []FSpec `json:"service_filters"`
+	RF       []FSpec `json:"route_filters"`
+	SF2      []FSpec `json:"service2_filters,omitempty"`
+	RF2      []FSpec `json:"route2_filters,omitempty"`
 	// Twin: the first service has a second GET /data/{id} route that produces application/xml, with as
 	// many route filters as the first one (other filters): (method, path) does not identify a route
-	Twin bool    `json:"twin_route_other_representation,omitempty"`
-	RFT  []FSpec `json:"twin_route_filters,omitempty"`
+	Twin    bool    `json:"twin_route_other_representation,omitempty"`
+	RFT     []FSpec `json:"twin_route_filters,omitempty"`
 	Preempt int     `json:"preempt_permille"`
 }
 
@@ -788,6 +790,7 @@ func genChainCfg(tp *sim.Tape, k chainKnobs) *ChainCfg {
 		cfg.WarmCF = tp.G(len(cfg.CF) + 1)
 		cfg.WarmSF = tp.G(len(cfg.SF) + 1)
 		cfg.WarmSF2 = tp.G(len(cfg.SF2) + 1)
+		cfg.WarmFlip = tp.Chance(400)
 	}
 	if !cfg.ReuseBuilder && tp.Chance(250) {
 		cfg.Twin = true
@@ -906,8 +909,19 @@ func newChainRun(s *sim.Sim, cfg *ChainCfg, reqs []*ChainReq) *chainRun {
 		// history: one request per service while only part of the filters exists, then the rest is registered
 		early := *cfg
 		early.CF, early.SF, early.SF2 = cfg.CF[:cfg.WarmCF], cfg.SF[:cfg.WarmSF], cfg.SF2[:cfg.WarmSF2]
-		for i, target := range []string{"route", "route2"} {
+		if cfg.WarmFlip {
+			cr.c.EnableContentEncoding(!cfg.ContEnc)
+			cr.c.DoNotRecover(cfg.Recover != 0)
+		}
+		targets := []string{"route", "route2"}
+		if cfg.Twin {
+			targets = append(targets, "twin")
+		}
+		for i, target := range targets {
 			wr := &ChainReq{ID: 9001 + i, Target: target, N: 20, Chunks: []int{20}}
+			if cfg.WarmFlip {
+				wr.AE = "gzip"
+			}
 			wr.payload = sim.PayloadBytes(fmt.Sprintf("warm%d", i), wr.N)
 			wr.res[0] = &ChainRes{WrapIn: map[string]int{}, WrapWant: map[string]int{}}
 			env.byID[wr.ID] = wr
@@ -917,6 +931,10 @@ func newChainRun(s *sim.Sim, cfg *ChainCfg, reqs []*ChainReq) *chainRun {
 			if want, _ := early.model(wr); !eventsEqual(wr.res[0].Events, want) {
 				s.Violate("filter-order", "warm-up request to %s with %d container and %d/%d service filters registered: events %v, the filter-order model gives %v", target, cfg.WarmCF, cfg.WarmSF, cfg.WarmSF2, wr.res[0].Events, want)
 			}
+		}
+		if cfg.WarmFlip {
+			cr.c.EnableContentEncoding(cfg.ContEnc)
+			cr.c.DoNotRecover(cfg.Recover == 0)
 		}
 		env.late()
 		s.Counts["reach:filters-registered-after-first-request"] = 1
